@@ -165,11 +165,18 @@ func clipS(s string) string {
 }
 
 // AuxLayout: line-oriented auxiliary files (*.txt: tip lists, maps, groups, states) are written
-// without their final end-of-line in half of the cases (chosen from the content, so that a case
+// with CRLF line ends in a third of the cases and without their final end-of-line in half of the cases (chosen from the content, so that a case
 // replays identically): the last line counts like the others.
 func AuxLayout(name, content string) string {
-	if strings.HasSuffix(name, ".txt") && len(content)%2 == 0 && strings.HasSuffix(content, "\n") && len(content) > 1 {
-		return content[:len(content)-1]
+	if !strings.HasSuffix(name, ".txt") {
+		return content
+	}
+	if len(content)%3 == 1 {
+		// written on another platform: CRLF line ends
+		content = strings.ReplaceAll(content, "\n", "\r\n")
+	}
+	if len(content)%2 == 0 && strings.HasSuffix(content, "\n") && len(content) > 2 {
+		content = strings.TrimSuffix(strings.TrimSuffix(content, "\n"), "\r")
 	}
 	return content
 }
